@@ -72,6 +72,15 @@ def opt_expr(c, base, want=None):
     return ("index", V("lo"), I(i)), ("present" if i != 1 else "nil")
 
 
+def show(c, e):
+    """print statement for a value; in a third of the cases the line holds text outside ASCII in front of the value, so that a
+    position reported for something inside `e` is a CHARACTER column only if characters, not bytes, were counted"""
+    if c.g.chance(35):
+        c.g.label("non-ascii-text-in-front-on-the-same-line")
+        return ("print", ("bin", "+", S(c.g.choice(["d\u00e9j\u00e0 ", "\u65e5\u672c\u8a9e\uff1a", "\U0001f600\U0001f600 ", "\u00e9"])), e))
+    return ("print", e)
+
+
 def fallback(c, base):
     return ("call", V("fb" if base == "int" else "fbs"), [I(c.key())])
 
@@ -95,9 +104,9 @@ def gen_stmts(c, n, depth, in_loop=False):
             c.seen.add(("get", s))
             if s != "present" and not g.chance(25):
                 # mostly guard gets so that programs keep running; unguarded ones may fail (predicted by the model)
-                out.append(("if", ("bin", "!=", e, ("nil",)), [("print", ("get", e))], [("print", S("is-nil"))]) if e[0] == "var" else ("print", ("bin", "==", e, ("nil",))))
+                out.append(("if", ("bin", "!=", e, ("nil",)), [show(c, ("get", e))], [("print", S("is-nil"))]) if e[0] == "var" else ("print", ("bin", "==", e, ("nil",))))
             else:
-                out.append(("print", ("get", e)))
+                out.append(show(c, ("get", e)))
         elif ch == "or" and g.chance(35):
             # a LITERAL on the left of `or` - nil itself or a present value - with a fallback that is a call (which must run
             # exactly when the left side is nil), a variable or another `or`; as a printed value, an initialiser (typed and
@@ -134,7 +143,7 @@ def gen_stmts(c, n, depth, in_loop=False):
                     if s2 != "present":
                         c.has_get_fail = True
                     if use == "get":
-                        out.append(("print", ("get", e)))
+                        out.append(show(c, ("get", e)))
                     else:
                         out += [("decl", dn, base, ("get", e), ()), ("print", V(dn)), ("print", ("bin", "==", V(dn), ("nil",)))]
                 else:
@@ -166,7 +175,7 @@ def gen_stmts(c, n, depth, in_loop=False):
         elif ch == "getor":
             e, s = opt_expr(c, base)
             c.seen.add(("or", s))
-            out.append(("print", ("get", ("or", e, fallback(c, base)))))
+            out.append(show(c, ("get", ("or", e, fallback(c, base)))))
         elif ch == "unwrap_stmt":
             a = g.choice(names)
             e, s = opt_expr(c, base)
@@ -283,7 +292,7 @@ def gen_stmts(c, n, depth, in_loop=False):
                 elif k == "or":
                     out.append(("print", ("or", fld, fallback(c, "int"))))
                 elif k == "get":
-                    out.append(("if", ("bin", "!=", fld, ("nil",)), [("print", ("get", fld))], [("print", S("nil-field"))]))
+                    out.append(("if", ("bin", "!=", fld, ("nil",)), [show(c, ("get", fld))], [("print", S("nil-field"))]))
                 elif k == "set":
                     out.append(("expr", ("mcall", V(fv), "set_o", [I(g.int(0, 9)) if g.chance(50) else ("nil",)])))
                 elif k == "method":
